@@ -88,8 +88,14 @@ func (partyIDs IDSlice) WriteTo(w io.Writer) (int64, error) {
 	if err != nil {
 		return 0, err
 	}
-	nAll := int64(4)
+	nAll := int64(8)
 	for _, id := range partyIDs {
+		// each ID is preceded by its length, so that {"a", "bc"} and {"ab", "c"} are written differently
+		err = binary.Write(w, binary.BigEndian, uint64(len(id)))
+		if err != nil {
+			return nAll, err
+		}
+		nAll += 8
 		n, err = w.Write([]byte(id))
 		nAll += int64(n)
 		if err != nil {
